@@ -169,7 +169,7 @@ func genDocField(r *core.Rand, s fieldSpec) genField {
 	}
 	switch s.Shape {
 	case shScalar, shVerbatim:
-		v := r.Pick([]string{"foo", "3.0 (quilt)", "optional", "https://example.org/x?y=1", "4.6.2", "Jane Doe <jane@example.org>", "a, b", "unstable", "low", "main/f/foo/foo_1.0.deb", "d41d8cd98f00b204e9800998ecf8427e", "same"})
+		v := r.Pick([]string{"foo", "3.0 (quilt)", "optional", "https://example.org/x?y=1", "4.6.2", "Jane Doe <jane@example.org>", "a, b", "unstable", "low", "main/f/foo/foo_1.0.deb", "d41d8cd98f00b204e9800998ecf8427e", "same", "citt\u00e0", "J\xf6rg M\xfcller <j@example.org>", "\u305d\u3046\u3060", "#1"})
 		if big {
 			v = "https://example.org/" + strings.Repeat(r.Pick([]string{"x", "seg/", "a:b ", "q=1&"}), r.Range(1000, 2500)) + "end"
 		}
@@ -274,7 +274,9 @@ func genDocField(r *core.Rand, s fieldSpec) genField {
 		first := r.Pick([]string{"short description", "foo (1.0-1) unstable; urgency=low", ""})
 		var conts []string
 		for k := r.Intn(4); k > 0; k-- {
-			conts = append(conts, r.Pick([]string{" long text", " .", "   * change one", " more"}))
+			conts = append(conts, r.Pick([]string{" long text", " .", "   * change one", " more",
+				// characters whose last byte is 0x85 / 0xA0, bytes that are no UTF-8, a '#' off the first column
+				" la citt\u00e0", " \u0421\u0421\u0421\u0420", " \u305d\u3046\u3060", " \u00c5", " J\xf6rg \xa0", "  #debian-devel", " # systemctl enable foo", "     #805210).", " #"}))
 		}
 		if big {
 			conts = append(conts, "   * closes: "+strings.Repeat(r.Pick([]string{"#123456, ", "x"}), r.Range(600, 1500))+"end")
